@@ -90,6 +90,20 @@ static void add_binary_cases() {
       auto f = op.f;
       c.fn = [=]() { Operand a(d1, ext, 0), b(d2, ext, 1); return guard([&]() { f(a.v, b.v); }, [&]() { return a.intact() && b.intact(); }); };
       cases.push_back(c);
+      if (!ext) {   // one operand was the source of a move assignment from a vector of the partner's dimension: it is a valid vector of
+                    // whatever dimension it reports now, and combining it with a partner of another dimension is still rejected
+        Case c3; c3.sig = std::string(op.name) + ":dimension-mismatch:operand-was-moved-from"; c3.desc = fmt("%s operand moved-from (had d=%d, exchanged with d=%d)", op.name, d2, d1);
+        c3.fn = [=]() { SU_vector recv = mkvec(d1, probe(d1, 2)), src = mkvec(d2, probe(d2, 1)); recv = std::move(src);   // src now holds whatever recv had
+          int ds = (int)src.Dim(); if (ds < 2) return 0;   // left empty: nothing to combine
+          for (int k = 0; k < ds * ds; k++) src[k] = 0.25 + k;
+          int dp = (ds == d2) ? d1 : d2; if (dp == ds) return 0;
+          Operand partner(dp, false, 0); std::vector<double> before = comps(src);
+          int r1 = guard([&]() { f(src, partner.v); }, [&]() { return comps(src) == before && partner.intact(); });
+          src = mkvec(ds, before);   // (an rvalue form may have consumed it)
+          int r2 = guard([&]() { f(partner.v, src); }, [&]() { return comps(src) == before && partner.intact(); });
+          return r1 ? r1 : r2; };
+        cases.push_back(c3);
+      }
       if (ext && !strstr(op.name, "[distinct-storage-only]")) {   // both operands are views of one user buffer (legal: the buffer fits the larger one); start addresses coincide
         Case c2; c2.sig = std::string(op.name) + ":dimension-mismatch:shared-buffer"; c2.desc = fmt("%s d1=%d d2=%d storage=one-shared-user-buffer", op.name, d1, d2);
         c2.fn = [=]() { Operand big(6, true, 2); Operand a(d1, true, 0, &big), b(d2, true, 1, &big); return guard([&]() { f(a.v, b.v); }, [&]() { return a.intact() && b.intact() && big.intact(); }); };
